@@ -113,8 +113,16 @@ def parseCase? (ws : List String) : Option (Hdr Float × Img Float) :=
     | _, _, _ => none
   | _ => none
 
-def cmp := compress (α := Float) Gen.C15.nxOf Gen.C15.nyOf Gen.C15.lcxOf Gen.C15.lcyOf
-def exp := expand (α := Float) Gen.C15.nodeRow Gen.C15.nodeCol
+def genHdr : HdrArith Float :=
+  { crpixC1 := Gen.C15.crpixC1, crpixC2 := Gen.C15.crpixC2, crpixE1 := Gen.C15.crpixE1, crpixE2 := Gen.C15.crpixE2,
+    keyC1 := Gen.C15.keyC1, keyC2 := Gen.C15.keyC2, keyE1 := Gen.C15.keyE1, keyE2 := Gen.C15.keyE2,
+    upA1 := Gen.C15.upA1, upB1 := Gen.C15.upB1, upA2 := Gen.C15.upA2, upB2 := Gen.C15.upB2,
+    dnA1 := Gen.C15.dnA1, dnB1 := Gen.C15.dnB1, dnA2 := Gen.C15.dnA2, dnB2 := Gen.C15.dnB2 }
+def genBn : BnArith :=
+  { cfac := Gen.C15.bnCfac, npx1 := Gen.C15.bnNpx1, npx2 := Gen.C15.bnNpx2, rpx1 := Gen.C15.bnRpx1,
+    rpx2 := Gen.C15.bnRpx2, outRows := Gen.C15.outRows, outCols := Gen.C15.outCols, deleted := Gen.C15.bnDeleted }
+def cmp := compress (α := Float) Gen.C15.nxOf Gen.C15.nyOf Gen.C15.lcxOf Gen.C15.lcyOf genHdr genBn
+def exp := expand (α := Float) Gen.C15.nodeRow Gen.C15.nodeCol genHdr genBn
 
 def handle (ws : List String) : String :=
   match ws with
@@ -138,7 +146,7 @@ def handle (ws : List String) : String :=
   | "roundtrip" :: f :: rest =>
     match f.toNat?, parseCase? rest with
     | some f, some (h, im) =>
-      showRes (roundTrip Gen.C15.nxOf Gen.C15.nyOf Gen.C15.lcxOf Gen.C15.lcyOf Gen.C15.nodeRow Gen.C15.nodeCol f h im)
+      showRes (roundTrip Gen.C15.nxOf Gen.C15.nyOf Gen.C15.lcxOf Gen.C15.lcyOf Gen.C15.nodeRow Gen.C15.nodeCol genHdr genBn f h im)
     | _, _ => "bad-op"
   | "spec" :: f :: rows :: cols :: orows :: ocols :: rest =>
     match f.toNat?, rows.toNat?, cols.toNat?, orows.toNat?, ocols.toNat? with
